@@ -292,8 +292,8 @@ func (in *Interp) callClosure(c *Closure, args []V) V {
 	return in.callFn(c.Fn, args, c.Env, false)
 }
 
-// traceUnsupported (GOSYM_TRACE=1): annotate "unsupported" path ends with the innermost call stack.
-var traceUnsupported = os.Getenv("GOSYM_TRACE") != ""
+// traceUnsupported (GOSYM_UNSUP_TRACE=1): annotate "unsupported" path ends with the innermost call stack.
+var traceUnsupported = os.Getenv("GOSYM_UNSUP_TRACE") != ""
 
 func (in *Interp) call(fn *ssa.Function, args []V, initCtx bool) V {
 	return in.callFn(fn, args, nil, initCtx)
